@@ -137,4 +137,138 @@ def rescaleWeight (N m : ℕ) (t : ℕ → ℚ) (X : ℕ → ℕ → ℚ) : ℚ 
 def rescaleWeight2 (N m₁ m₂ : ℕ) (t₁ t₂ : ℕ → ℚ) (X : ℕ → ℕ → ℚ) : ℚ :=
   integrate2 m₁ m₂ (standGrid m₁ t₁) (standGrid m₂ t₂) (fun a b => varPop N X (a * m₂ + b))
 
+/-! ### The formulas as written in the source (translator `harness/c02_translate.py`)
+
+`Generated/UfpcaFormulas.lean` records, for `ufpca._fit_covariance`, `_fit_inner_product`,
+`utils._compute_covariance`, `UFPCA.transform`, `DenseFunctionalData.rescale`,
+`_transform_numerical_integration_dense`, `_transform_innpro` and `UFPCA.inverse_transform`, the operators,
+powers, operand orders, transposes and subscripts found in the source text.  The `…P` functions below are the
+model's formulas with those choices left open; `C02.*_src_eq_model` / `C03.*_src_eq_model` prove that with the
+choices of today's source they are the functions all theorems are about. -/
+
+/-- Which diagonal matrix stands at a place of a product: `diag(w^{1/2})`, `diag(w^{-1/2})`, or none. -/
+inductive DiagKind | sqrtW | invSqrtW | one
+  deriving DecidableEq, Repr
+
+/-- How the eigenfunctions are recovered from the solver vectors `U` (columns) and a diagonal matrix `D`. -/
+inductive BackForm
+  | diagMatT   -- `(D @ U).T`
+  | matTDiag   -- `U.T @ D`
+  | diagMat    -- `D @ U`   (not transposed)
+  | matDiag    -- `U @ D`
+  deriving DecidableEq, Repr
+
+structure FitConsts where
+  /-- `weight_sqrt = np.diag(weight ^ sqrtPow)` -/
+  sqrtPow : ℚ
+  /-- `weight_invsqrt = np.diag(weight ^ invPow)` -/
+  invPow : ℚ
+  /-- `covariance_matrix = L @ C @ R` -/
+  symLeft : DiagKind
+  symRight : DiagKind
+  backDiag : DiagKind
+  backForm : BackForm
+  /-- `_integration_weights(argvals, method="trapz")` -/
+  quadTrapz : Bool
+  /-- Gram route: `values.T @ eigenvectors` -/
+  gramValuesT : Bool
+  /-- … of the re-centred curves `data._data_inpro` -/
+  gramInpro : Bool
+  /-- … divided by `eigenvalues ^ gramDivPow` -/
+  gramDivPow : ℚ
+  /-- … and transposed when stored -/
+  gramResultT : Bool
+  /-- `eigenvalues / (n_obs - gramEigShift)` -/
+  gramEigShift : ℕ
+  /-- `_compute_covariance`: `transpose(Φ) · diag(λ ^ mercerDiagPow) · Φ` -/
+  mercerLeftT : Bool
+  mercerDiagPow : ℚ
+  mercerRightPlain : Bool
+  deriving DecidableEq, Repr
+
+structure TransformConsts where
+  /-- `data.center(mean=self._mean, …)` -/
+  centerWithMean : Bool
+  /-- the rescaled object is the centred `data_new` (`true`) or the uncentred `data` (`false`, as coded) -/
+  rescaleCentred : Bool
+  /-- `rescale(weights=self.weights)` -/
+  rescaleWeights : Bool
+  /-- `DenseFunctionalData.rescale`: `self / weights ^ rescaleDivPow` -/
+  rescaleDivPow : ℚ
+  /-- `obs * eigenfunctions.values` is what is integrated -/
+  numintProduct : Bool
+  numintAxesReversed : Bool
+  /-- `_integrate(…, method=method)` -/
+  numintMethodForwarded : Bool
+  /-- `_transform_innpro`: `(f · eigenvalues) ^ innproPow * eigenvectors`, `f = n_obs - innproShift` or absent -/
+  innproPow : ℚ
+  innproTimesN : Bool
+  innproShift : ℕ
+  /-- subscripts of the `einsum` of `inverse_transform`, blanks removed -/
+  einsum : String
+  /-- `(self.weights ^ invPow if self.normalize else invElse) * values + self.mean.values` -/
+  invPow : ℚ
+  invGuardNormalize : Bool
+  invElse : ℚ
+  invAddMean : Bool
+  deriving DecidableEq, Repr
+
+section param
+variable {F : Type} [Field F]
+
+def diagP (k : DiagKind) (s sinv : ℕ → F) (j : ℕ) : F :=
+  match k with
+  | .sqrtW => s j
+  | .invSqrtW => sinv j
+  | .one => 1
+
+/-- `L @ C @ R` entrywise. -/
+def symMatP (c : FitConsts) (s sinv : ℕ → F) (C : ℕ → ℕ → F) (i j : ℕ) : F :=
+  diagP c.symLeft s sinv i * C i j * diagP c.symRight s sinv j
+
+/-- Entry `(k, j)` of the array of eigenfunctions as the source forms it (`U k` = solver vector `k`). -/
+def backTransformP (c : FitConsts) (s sinv : ℕ → F) (U : ℕ → ℕ → F) (k j : ℕ) : F :=
+  match c.backForm with
+  | .diagMatT => diagP c.backDiag s sinv j * U k j
+  | .matTDiag => U k j * diagP c.backDiag s sinv j
+  | .diagMat => diagP c.backDiag s sinv k * U j k
+  | .matDiag => U j k * diagP c.backDiag s sinv k
+
+def gramEigfunP (c : FitConsts) (N : ℕ) (Xc V : ℕ → ℕ → F) (r l : ℕ → F) (k j : ℕ) : F :=
+  (∑ i ∈ range N, (if c.gramValuesT then Xc i j else Xc j i) * V k i)
+    / (if c.gramDivPow = 1 / 2 then r k else if c.gramDivPow = 1 then l k else 1)
+
+def gramEigvalP (c : FitConsts) (N : ℕ) (l : ℕ → F) (k : ℕ) : F := l k / ((N : F) - (c.gramEigShift : F))
+
+def mercerP (c : FitConsts) (K : ℕ) (lam r : ℕ → F) (Phi : ℕ → ℕ → F) (i j : ℕ) : F :=
+  ∑ k ∈ range K, (if c.mercerLeftT then Phi k i else Phi i k)
+    * (if c.mercerDiagPow = 1 then lam k else r k) * (if c.mercerRightPlain then Phi k j else Phi j k)
+
+def transformP (c : TransformConsts) (normalize : Bool) (mean : ℕ → F) (r : F) (X : ℕ → ℕ → F) : ℕ → ℕ → F :=
+  let centred := if c.centerWithMean then centerBy mean X else X
+  if normalize then (if c.rescaleCentred then rescaleBy r centred else rescaleBy r X) else centred
+
+/-- The radicand of `_transform_innpro`. -/
+def innproRadicandP (c : TransformConsts) (N : ℕ) (lam : ℕ → F) (k : ℕ) : F :=
+  (if c.innproTimesN then (N : F) - (c.innproShift : F) else 1) * lam k
+
+def inverseTransformP (c : TransformConsts) (normalize : Bool) (K : ℕ) (mean : ℕ → F) (r w : F)
+    (S Phi : ℕ → ℕ → F) (i j : ℕ) : F :=
+  let pw : F := if c.invPow = 1 / 2 then r else w
+  let scale : F := if c.invGuardNormalize then (if normalize then pw else (c.invElse : F)) else pw
+  scale * (∑ k ∈ range K, S i k * Phi k j) + (if c.invAddMean then mean j else 0)
+
+end param
+
+/-- The choices the hand-written model makes (= those of the source this machinery was built against). -/
+def codedFit : FitConsts :=
+  { sqrtPow := 1 / 2, invPow := -1 / 2, symLeft := .sqrtW, symRight := .sqrtW, backDiag := .invSqrtW, backForm := .diagMatT,
+    quadTrapz := true, gramValuesT := true, gramInpro := true, gramDivPow := 1 / 2, gramResultT := true, gramEigShift := 0,
+    mercerLeftT := true, mercerDiagPow := 1, mercerRightPlain := true }
+
+def codedTransform : TransformConsts :=
+  { centerWithMean := true, rescaleCentred := false, rescaleWeights := true, rescaleDivPow := 1 / 2, numintProduct := true,
+    numintAxesReversed := false, numintMethodForwarded := true, innproPow := 1 / 2, innproTimesN := true, innproShift := 0,
+    einsum := "ij,j...->i...", invPow := 1 / 2, invGuardNormalize := true, invElse := 1, invAddMean := true }
+
 end FDA.FPCA
